@@ -140,21 +140,39 @@ func firstIfCond(rel, fn string) string {
 	if fd == nil {
 		return "?"
 	}
-	res := "?"
+	// the handler: the first function literal inside fn, or — when the closure was turned into a method value —
+	// the first method of the package fn mentions
+	var bodies []*ast.BlockStmt
 	ast.Inspect(fd, func(n ast.Node) bool {
-		fl, ok := n.(*ast.FuncLit)
-		if !ok || res != "?" {
-			return true
+		if fl, ok := n.(*ast.FuncLit); ok && len(bodies) == 0 {
+			bodies = append(bodies, fl.Body)
+			return false
 		}
-		for _, st := range fl.Body.List {
-			if is, ok := st.(*ast.IfStmt); ok {
-				res = inlineLocals(fl.Body, is.Cond)
-				break
+		return true
+	})
+	if len(bodies) == 0 {
+		for _, b := range reachBodies(rel, fd)[1:] {
+			if blk, ok := b.(*ast.BlockStmt); ok {
+				bodies = append(bodies, blk)
 			}
 		}
-		return false
-	})
-	return res
+	}
+	for _, body := range bodies {
+		for _, st := range body.List {
+			switch x := st.(type) {
+			case *ast.IfStmt:
+				return inlineLocals(body, x.Cond)
+			case *ast.SwitchStmt:
+				// the same test written as the first case of a tagless switch
+				if x.Tag == nil && len(x.Body.List) > 0 {
+					if cc, ok := x.Body.List[0].(*ast.CaseClause); ok && len(cc.List) == 1 {
+						return inlineLocals(body, cc.List[0])
+					}
+				}
+			}
+		}
+	}
+	return "?"
 }
 
 func pthExpr(rel, fn string) string {
@@ -181,9 +199,10 @@ func contentTypes(rel, fn string) []string {
 	if fd == nil {
 		return out
 	}
-	ast.Inspect(fd, func(n ast.Node) bool {
+	whole := reach(rel, fd)
+	ast.Inspect(whole, func(n ast.Node) bool {
 		c, ok := n.(*ast.CallExpr)
-		if !ok || len(c.Args) != 2 || exprString(c.Fun) != "rw.Header().Set" || exprString(c.Args[0]) != "contentTypeHeader" {
+		if !ok || len(c.Args) != 2 || !strings.HasSuffix(exprString(c.Fun), ".Header().Set") || exprString(c.Args[0]) != "contentTypeHeader" {
 			return true
 		}
 		switch a := c.Args[1].(type) {
